@@ -204,6 +204,27 @@ def h_parse(exprs):
 
 ROUND = ['eV', 'angstrom', 'eV/angstrom^3', 'GPa', 'g/mol', 'kcal/(mol*angstrom)', 'mJ/m^2', 'angstrom/ps', '1e-18*g*nm^2/ns^2',
          '2*Ry*aBohr/hbar', '(eV/angstrom)^2', 'eV^-1', 'amu*angstrom^2/ps^2', ' eV / angstrom ', 'Pa*s/10', 'rtHz', 'eV^0.5']
+def h_reparse():
+    """the same unit strings parsed under one set of working units and then, in the same process, under a second,
+    independent set: each factor follows the working units in force at the time of the call"""
+    def fn():
+        exprs = ['eV', 'angstrom', 'eV/angstrom^3', 'GPa', 'kcal/(mol*angstrom)', 'amu*angstrom^2/ps^2', 'nm']
+        ob = []
+        uc = install('')
+        first = {e: uc.parse(e) for e in exprs}
+        for e in exprs:
+            a = agrees(first[e], ref_eval(e), '')
+            if a is not None: ob.append((f'parse({e!r}) under the first working units', a))
+        uc = install('_w2')
+        for e in exprs:
+            a = agrees(uc.parse(e), ref_eval(e), '_w2')
+            if a is not None: ob.append((f'parse({e!r}) again after the working units were changed: follows the NEW units', a))
+        a = agrees(uc.set_in_units(1, 'nm'), ref_eval('nm'), '_w2')
+        if a is not None: ob.append(('set_in_units(1, nm) after the change', a))
+        return ob
+    return fn
+
+
 def h_roundtrip(units):
     def fn():
         uc = install()
@@ -356,6 +377,7 @@ def cases(tier, seed=0):
                 ch = dict(zip(sub, names))
                 cs.append(Case('reset_' + '_'.join(f'{a}={b}' for a, b in ch.items()), h_reset(ch), bind=BIND, reload=('atomman.unitconvert',), budget_s=100,
                                timeout_ms=20000, descr=f'reset_units({ch})'))
+    cs.append(Case('reparse_after_reset', h_reparse(), bind=BIND, reload=('atomman.unitconvert',), budget_s=150, timeout_ms=20000, descr='unit strings parsed before and after a change of the working units'))
     cs.append(Case('reset_refusals', h_reset_refuse(), bind=BIND, reload=('atomman.unitconvert',), descr='documented refusals of reset_units'))
     for st in STYLES:
         cs.append(Case(f'style_{st}', h_style(st), bind=BIND, reload=('atomman.unitconvert',), budget_s=150, timeout_ms=20000, descr=f'LAMMPS unit style {st}: dimension of every mechanical table entry'))
